@@ -9,6 +9,21 @@ import (
 	"verifharness/vprop"
 )
 
+// unusualNameRefused: a scenario may give plan p0 an unusual name (Scenario.NameKind). Whether Submit admits it is C16's
+// business; a refused one makes the case drop out here, an admitted one must execute like any other plan.
+func unusualNameRefused(sc *lab.Scenario, rr *lab.RunResult, res *vprop.Result) bool {
+	if sc.NameKind == 0 {
+		return false
+	}
+	if len(rr.Plans) > 0 && rr.Plans[0].SubmitErr != nil {
+		res.Label("unusual-plan-name-refused-by-submit")
+		res.Skip = true
+		return true
+	}
+	res.Label("unusual-plan-name-admitted")
+	return false
+}
+
 // engineSpec wires a set of profiles and an oracle into a Spec over scenarios.
 func engineSpec(id string, profiles []lab.Profile, opts lab.RunOpts, check func(rr *lab.RunResult, res *vprop.Result)) vprop.Spec[lab.Scenario] {
 	return vprop.Spec[lab.Scenario]{
@@ -26,6 +41,9 @@ func engineSpec(id string, profiles []lab.Profile, opts lab.RunOpts, check func(
 			if rr.NewErr != nil {
 				res.Skip = true
 				res.Label("workstream-construction-failed")
+				return res
+			}
+			if unusualNameRefused(&sc, rr, &res) {
 				return res
 			}
 			if rr.Stalled {
@@ -327,6 +345,9 @@ func TestC08(t *testing.T) {
 			res.Sample = map[string]any{"scenario": sc.Summary(), "write_fault_permille": c.Fault}
 			if rr.NewErr != nil {
 				res.Skip = true
+				return res
+			}
+			if unusualNameRefused(&sc, rr, &res) {
 				return res
 			}
 			if rr.Stalled {
